@@ -117,3 +117,71 @@ Definition nl_utf8codepoint (s : bytes) (i : Z) (strict : bool) : res Z :=
   let len := slen s in
   let i0 := nl_utf8relpos i len in
   if (0 <=? i0) && (i0 <? len) then nl_cp_loop (S (Z.to_nat len)) s len i0 0 strict else Trap.
+
+(* ---- utf8.len(s, i, j, lax) ---- *)
+Inductive lenres := LenOk (n : Z) | LenFail (pos : Z) | LenFuel.
+
+(* while (i <= j) { decode at i; on failure return (fail, i+1); i = next; n++ }   (0-based i, j) *)
+Fixpoint len_loop (dec : bytes -> option (Z * Z)) (fuel : nat) (s : bytes) (i j n : Z) : lenres :=
+  match fuel with
+  | O => LenFuel
+  | S f =>
+      if j <? i then LenOk n
+      else match dec (skipn (Z.to_nat i) s) with
+           | None => LenFail (i + 1)
+           | Some (_, adv) => len_loop dec f s (i + adv) j (n + 1)
+           end
+  end.
+
+(* lutf8lib.c utflen *)
+Definition lua_utf8len (s : bytes) (i j : Z) (strict : bool) : lres lenres :=
+  let len := slen s in
+  let posi := lua_u_posrelat i len in
+  let posj := lua_u_posrelat j len in
+  if negb ((1 <=? posi) && (posi - 1 <=? len)) then LErr            (* "initial position out of bounds" *)
+  else if negb (posj - 1 <? len) then LErr                         (* "final position out of bounds" *)
+  else LVal (len_loop (fun b => lua_utf8decode b strict) (S (S (length s))) s (posi - 1) (posj - 1) 0).
+
+(* utf8.nelua utf8.len *)
+Definition nl_utf8len (s : bytes) (i j : Z) (strict : bool) : res lenres :=
+  let len := slen s in
+  let i0 := nl_utf8relpos i len in
+  if negb ((0 <=? i0) && (i0 <=? len)) then Trap
+  else
+    let j0 := nl_utf8relpos j len in
+    if negb (j0 <? len) then Trap
+    else Val (len_loop (fun b => nl_utf8decode b strict) (S (S (length s))) s i0 j0 0).
+
+(* ---- utf8.codes: one step of the iterator, from the previous 1-based position (0 at the start) ---- *)
+Definition iscont (c : Z) : bool := Z.land c 192 =? 128.
+Definition rd (s : bytes) (k : Z) : Z := nth (Z.to_nat k) s 0.      (* the terminator reads as 0 *)
+
+Fixpoint skip_cont (fuel : nat) (s : bytes) (n : Z) : Z :=
+  match fuel with O => n | S f => if iscont (rd s n) then skip_cont f s (n + 1) else n end.
+
+Inductive stepres := StepEnd | StepVal (pos code : Z) | StepErr.
+
+(* lutf8lib.c iter_aux (5.4.6): n = (lua_Unsigned)i; if (n < len) skip continuation bytes; if (n >= len) end;
+   decode; error if invalid or followed by a continuation byte *)
+Definition lua_codes_step (s : bytes) (i : Z) (strict : bool) : stepres :=
+  let len := slen s in
+  let n := u64 i in
+  let n := if n <? len then skip_cont (S (length s)) s n else n in
+  if len <=? n then StepEnd
+  else match lua_utf8decode (skipn (Z.to_nat n) s) strict with
+       | None => StepErr
+       | Some (code, adv) => if iscont (rd s (n + adv)) then StepErr else StepVal (n + 1) code
+       end.
+
+(* utf8.nelua utf8next (after 6daceda): n = i - 1; if n < 0 then n = 0 elseif n < len then n = n + 1 and skip
+   continuation bytes; if n >= len then end; decode; assert valid and (n + advance >= len or not continuation) *)
+Definition nl_codes_step (s : bytes) (i : Z) (strict : bool) : stepres :=
+  let len := slen s in
+  let n := i - 1 in
+  let n := if n <? 0 then 0 else if n <? len then skip_cont (S (length s)) s (n + 1) else n in
+  if len <=? n then StepEnd
+  else match nl_utf8decode (skipn (Z.to_nat n) s) strict with
+       | None => StepErr
+       | Some (code, adv) =>
+           if negb ((len <=? n + adv) || negb (iscont (rd s (n + adv)))) then StepErr else StepVal (n + 1) code
+       end.
